@@ -73,6 +73,7 @@ static void own_cycle(struct tres *r, int be, int k, int m, int hd, int wbytes)
 static void b_rs_cycle(struct tres *r) { own_cycle(r, RS, 2, 1, 1, 2); }
 static void b_xor_cycle(struct tres *r) { own_cycle(r, XR, 3, 3, 3, 4); }
 static void b_null_cycle(struct tres *r) { own_cycle(r, EC_BACKEND_NULL, 2, 1, 1, 4); }
+static void b_isa_cycle(struct tres *r) { own_cycle(r, EC_BACKEND_ISA_L_RS_VAND, 2, 2, 2, 1); }
 static void b_shared_user(struct tres *r) { use(r, shared_desc, 2, 1, 2, 1); }
 static void b_destroy_doomed(struct tres *r) { int rc = liberasurecode_instance_destroy(doomed_desc); r->h = mix(r->h, &rc, sizeof rc); if (rc) { r->bad = 1; snprintf(r->what, sizeof r->what, "destroy returned %d", rc); } }
 static void b_create_only(struct tres *r)
@@ -87,6 +88,8 @@ static const struct driver DRV[] = {
     { "W2", 2, { b_shared_user, b_xor_cycle }, 1, 0, 0 },
     { "W4", 2, { b_destroy_doomed, b_rs_cycle }, 0, 1, 0 },
     { "W5", 2, { b_create_only, b_create_only }, 0, 0, 1 },
+    { "W6", 2, { b_xor_cycle, b_xor_cycle }, 0, 0, 0 },
+    { "W7", 2, { b_isa_cycle, b_isa_cycle }, 0, 0, 0 },
     { "W2b", 2, { b_shared_user, b_rs_cycle }, 1, 0, 0 },
     { "W3", 3, { b_rs_cycle, b_xor_cycle, b_null_cycle }, 0, 0, 0 },
     { "W2+", 3, { b_shared_user, b_shared_user, b_xor_cycle }, 1, 0, 0 },
